@@ -342,6 +342,8 @@ class Gen(object):
 
     def next(self, w, L):
         self.n += 1
+        if getattr(self, "_queue", None):
+            return self._queue.pop(0)
         rng, cfg = self.rng, self.cfg
         addr = rng.choice(self.addrs)
         wc, lc = self._conn_state(L, w, addr)
@@ -613,6 +615,11 @@ class Gen(object):
             ka = cfg["keepalive"] or 4
             return {"op": "time.advance", "dt": rng.choice([0.25, 0.5, 1, 2, ka / 2.0, ka, 4, 16])}
         if k == "pingresp":
+            if rng.random() < 0.2:
+                # the answer shares a TCP segment with a packet whose remaining length needs 2+ bytes
+                self._queue = [{"op": "brk.pingresp", "addr": addr}]
+                return {"op": "brk.publish", "addr": addr, "qos": 0, "topic": gen_topic(rng),
+                        "payload": {"$": "barep", "s": "k", "n": rng.choice([128, 130, 200, 16384])}, "dl": False}
             return {"op": "brk.pingresp", "addr": addr}
         if k == "pingresp_extra":
             return {"op": "brk.pingresp", "addr": addr, "mode": "extra"}
